@@ -1228,5 +1228,191 @@ theorem assignRange_spec (c : Cfg) (hok : c.OK) (i j : Nat) (s : St) (hG : Good 
     simp only [Op.affectedA, Bool.not_eq_false'] at haff
     exact haff
 
+/-! ### reextent -/
+
+/-- reading the elements of an array that has its block (on a heap that need not satisfy the invariant) -/
+theorem readHas_out (c : Cfg) (count : Nat) (x : Arr) (s : St) {Q : St → Prop} {T : Prop}
+    (hblk : HasBlock c s.blocks x) (hle : count ≤ x.n) :
+    Out (readCells c x.base count s) (fun _ s' => s' = s) Q T := by
+  by_cases h0 : count = 0
+  · subst h0; exact readCells_zero c x.base s
+  · obtain ⟨b, blk, hb, hB, hf, hsz, hc⟩ := hblk (by omega)
+    rw [hb]
+    exact readCells_out c b count s hB hf (by omega) hc
+
+theorem HasBlock.of_built {c : Cfg} {a : AllocId} {n : Nat} {s s1 : St} {p : Option Nat} {x : Arr}
+    (h0 : HasBlock c s.blocks x) (hb : Built c a n s s1 p) : HasBlock c s1.blocks x := by
+  obtain ⟨_, _, h⟩ := hb
+  rcases h with ⟨_, _, hbl⟩ | ⟨blk, _, _, hbl, _⟩
+  · rw [hbl]; exact h0
+  · rw [hbl]; exact h0.append blk
+
+/-- a block was built at the end of the heap, then the old block of `x` was returned underneath it: seen from the
+    original heap this is a release followed by an adoption -/
+theorem Built.then_released {c : Cfg} {a : AllocId} {n : Nat} {s s1 : St} {p : Option Nat} {x xf : Arr} {B3 : List Block}
+    (hb : Built c a n s s1 p) (hx : HasBlock c s.blocks x) (hrel : RelB c s1.blocks B3 x)
+    (hxfb : xf.base = p) (hxfn : xf.n = n) : ∃ B1, RelB c s.blocks B1 x ∧ NewB c a s.blocks B1 B3 xf := by
+  rcases hb.newB (B1 := B3) hxfb hxfn with ⟨_, hs1, hnew⟩ | ⟨nb, hs1, _⟩
+  · rw [hs1] at hrel
+    exact ⟨B3, hrel, hnew⟩
+  · rw [hs1] at hrel
+    obtain ⟨B0, hr0, hB0⟩ := RelB.of_append hx hrel
+    rcases hb.newB (B1 := B0) hxfb hxfn with ⟨hn0, hs1', _⟩ | ⟨nb', hs1', hnew⟩
+    · rw [hs1'] at hs1
+      have := congrArg List.length hs1
+      simp at this
+    · have : nb' = nb := by
+        rw [hs1'] at hs1
+        have := List.append_cancel_left hs1
+        simpa using this
+      subst this
+      exact ⟨B0, hr0, by rw [hB0]; exact hnew⟩
+
+/-- the copy of the preserved elements into the block just built by `buildSafe` (second step of `reextent` in the repaired
+    code): on an exception the new block is destroyed and returned -/
+theorem copyStage_out (c : Cfg) (hok : c.OK) (x : Arr) (n : Nat) (offs : List Nat) (s s1 : St) (p : Option Nat) {T : Prop}
+    (hx : HasBlock c s.blocks x) (hb : Built c x.alloc n s s1 p) (hoffs : ∀ off ∈ offs, off < n) :
+    Out (tryCatch (do readCells c x.base (if offs.isEmpty then 0 else x.n); assignAll c p offs)
+                 (do destroyAll c p n; deallocate c x.alloc p n; rethrow) s1)
+      (fun _ s' => Built c x.alloc n s s' p)
+      (fun s' => s.fuel ≠ none ∧ Cleaned c x.alloc s s') T := by
+  have hx1 := hx.of_built hb
+  have hcount : (if offs.isEmpty then 0 else x.n) ≤ x.n := by split <;> omega
+  obtain ⟨hnf1, harr1, hcase⟩ := hb
+  rcases hcase with ⟨hn, hp, hbl⟩ | ⟨nb, hn, hp, hbl, hfr, hsz, hc, hba⟩
+  · -- nothing was allocated: nothing to copy
+    subst hp
+    have hnil : offs = [] := by
+      cases offs with
+      | nil => rfl
+      | cons o r => have := hoffs o (by simp); omega
+    subst hnil
+    apply Out.tryCatch' (P := fun _ s2 => s2 = s1) (Q := fun _ => False) _ (fun _ h => h.elim)
+    · intro _ s2 h2; subst h2
+      exact ⟨hnf1, harr1, Or.inl ⟨hn, rfl, hbl⟩⟩
+    · apply Out.bind (readHas_out (Q := fun _ => False) c _ x s1 hx1 hcount) _ (fun _ h => h.elim)
+      intro _ s2 h2; subst h2
+      exact assignAll_nil c none s2
+  · subst hp
+    have hB1 : s1.blocks[s.blocks.length]? = some nb := by rw [hbl]; exact List.getElem?_concat_length
+    apply Out.tryCatch' (P := fun _ s2 => ∃ cs', FrB s1 s2 (s.blocks ++ [{ nb with cells := cs' }]) ∧ CellsOK c { nb with cells := cs' })
+      (Q := fun s2 => s1.fuel ≠ none ∧ ∃ cs', FrB s1 s2 (s.blocks ++ [{ nb with cells := cs' }]) ∧ CellsOK c { nb with cells := cs' })
+    · apply Out.bind (readHas_out (Q := fun _ => False) c _ x s1 hx1 hcount) _ (fun _ h => h.elim)
+      intro _ s2 h2; subst h2
+      apply Out.mono (assignAll_out (T := T) c s.blocks.length offs s2 hB1 hfr (by intro o ho; rw [hsz]; exact hoffs o ho) hc) _ _ id
+      · intro _ s3 ⟨cs', h3, hcs⟩
+        refine ⟨cs', ?_, hcs⟩
+        have : withCells s2.blocks s.blocks.length nb cs' = s.blocks ++ [{ nb with cells := cs' }] := by
+          unfold withCells; rw [hbl]; exact set_last
+        rw [← this]; exact h3
+      · intro s3 ⟨hfu, cs', h3, hcs⟩
+        refine ⟨hfu, cs', ?_, hcs⟩
+        have : withCells s2.blocks s.blocks.length nb cs' = s.blocks ++ [{ nb with cells := cs' }] := by
+          unfold withCells; rw [hbl]; exact set_last
+        rw [← this]; exact h3
+    · -- the handler: destroy the new elements, return the new block, rethrow
+      intro s2 ⟨hfu, cs', h2, hcs⟩
+      have hB2 : s2.blocks[s.blocks.length]? = some { nb with cells := cs' } := by
+        rw [h2.blocks]; exact List.getElem?_concat_length
+      show Out ((destroyAll c (some s.blocks.length) n >>= fun _ => deallocate c x.alloc (some s.blocks.length) n >>= fun _ => rethrow) s2) _ _ _
+      apply Out.bind (destroyAll_out (Q := fun _ => False) c hok.wf s.blocks.length n s2 hn hB2 hfr hsz hcs) _ (fun _ h => h.elim)
+      intro _ s3 ⟨cs2, h3, hlen2, hraw2⟩
+      have hbl3 : s3.blocks = s.blocks ++ [{ nb with cells := cs2 }] := by
+        rw [h3.blocks]; unfold withCells; rw [h2.blocks]; exact set_last
+      have hB3 : s3.blocks[s.blocks.length]? = some { nb with cells := cs2 } := by
+        rw [hbl3]; exact List.getElem?_concat_length
+      apply Out.bind (deallocate_out (Q := fun _ => False) c x.alloc s.blocks.length n s3 hn hB3 hfr hsz hraw2) _ (fun _ h => h.elim)
+      intro _ s4 h4
+      apply rethrow_out
+      refine ⟨fun e => hfu (hnf1 e), by rw [h4.arrs, h3.arrs, h2.arrs, harr1],
+        Or.inr ⟨freedBlock { nb with cells := cs2 } x.alloc, ?_, rfl, ⟨by show cs2.length = nb.size; rw [hlen2, hsz], hraw2⟩, rfl, hba⟩⟩
+      rw [h4.blocks, hbl3]; exact set_last
+    · intro _ s2 ⟨cs', h2, hcs⟩
+      exact ⟨fun e => h2.fuel (hnf1 e), by rw [h2.arrs, harr1],
+        Or.inr ⟨{ nb with cells := cs' }, hn, rfl, h2.blocks, hfr, hsz, hcs, hba⟩⟩
+
+theorem opReextent_spec (c : Cfg) (hok : c.OK) (i : Nat) (es : List Ext) (fill : Bool) (s : St) {T : Prop} (hG : Good c s)
+    (hal : alive s i = true) (hfx8 : c.fx8 = true) :
+    Out (opReextent c i es fill s)
+      (fun _ s' => Good c s' ∧ NF s s' ∧ s'.arrs.length = s.arrs.length ∧ (InvAS c s → InvAS c s') ∧ allocOf s' i = allocOf s i)
+      (fun s' => s.fuel ≠ none ∧ s'.arrs.length = s.arrs.length ∧ Good c s') T := by
+  obtain ⟨x, hx⟩ := alive_iff.mp hal
+  have hi := getArr_eq hx
+  have hlti : i < s.arrs.length := (List.getElem?_eq_some_iff.mp hi).1
+  unfold opReextent
+  rw [get_bind]
+  simp only [hx]
+  by_cases hsame : extsEq x.ext es = true
+  · simp only [hsame, if_true]
+    apply Out.pure'
+    exact ⟨hG, NF.refl s, rfl, fun h => h, rfl⟩
+  · simp only [hsame, Bool.false_eq_true, if_false, hfx8, if_true]
+    have hxb := HasBlock.of_inv hG.1 hi
+    have hoffs : ∀ off ∈ (posIn (reported es) x.ext).filter (· < nElems es), off < nElems es := by
+      intro off ho
+      have := (List.mem_filter.mp ho).2
+      simpa using this
+    have hcleaned : ∀ (s' : St), s.fuel ≠ none ∧ Cleaned c x.alloc s s' →
+        s.fuel ≠ none ∧ s'.arrs.length = s.arrs.length ∧ Good c s' := by
+      intro s1 ⟨hfu, hcl⟩
+      exact ⟨hfu, by rw [hcl.1], hcl.inv hG.1, by rw [hcl.1]; exact hG.2⟩
+    apply Out.bind (buildSafe_out (T := T) c x.alloc (nElems es) (fill || !c.trivCtor) s
+      (by intro h; simp only [Bool.or_eq_false_iff, Bool.not_eq_false'] at h; exact h.2)) _ hcleaned
+    intro p s0 hb0
+    apply Out.bind (copyStage_out (T := T) c hok x (nElems es) _ s s0 p hxb hb0 hoffs) _ hcleaned
+    intro _ s1 hb
+    have hx1 := hxb.of_built hb
+    show Out ((pure p >>= fun p => destroyAll c x.base x.n >>= fun _ => deallocate c x.alloc x.base x.n >>= fun _ =>
+      setSlot i (some { x with base := p, ext := reported es, n := nElems es })) s1) _ _ _
+    apply Out.bind (P := fun q s2 => q = p ∧ s2 = s1) (Q := fun _ => False) (Out.pure' ⟨rfl, rfl⟩) _ (fun _ h => h.elim)
+    intro q s1' ⟨hq, hs1'⟩
+    subst hq; subst hs1'
+    -- release the old block, adopt the new one
+    have hassoc : (destroyAll c x.base x.n >>= fun _ => deallocate c x.alloc x.base x.n >>= fun _ =>
+        setSlot i (some { x with base := q, ext := reported es, n := nElems es })) s1'
+        = ((do destroyAll c x.base x.n; deallocate c x.alloc x.base x.n : M Unit) >>= fun _ =>
+        setSlot i (some { x with base := q, ext := reported es, n := nElems es })) s1' := by
+      show M.bind _ _ s1' = M.bind (M.bind _ _) _ s1'
+      unfold M.bind
+      cases destroyAll c x.base x.n s1' <;> rfl
+    rw [hassoc]
+    apply Out.bind (release_raw (Q := fun _ => False) c hok.wf x s1' hx1) _ (fun _ h => h.elim)
+    intro _ s2 hr
+    apply Out.mono (setSlot_out i _ s2) _ (fun _ h => h) id
+    intro _ s3 h3
+    have harr3 : s3.arrs = s.arrs.set i (some { x with base := q, ext := reported es, n := nElems es }) := by
+      rw [h3.arrs, hr.2.1, hb.2.1]
+    obtain ⟨B1, hr0, hnew⟩ := hb.then_released (xf := { x with base := q, ext := reported es, n := nElems es }) hxb hr.relB rfl rfl
+    refine ⟨⟨?_, ?_⟩, fun h => h3.fuel (hr.1 (hb.1 h)), by rw [harr3, List.length_set], ?_, ?_⟩
+    · show Inv c s3.blocks s3.arrs
+      rw [h3.blocks, harr3]; exact Inv.replace hG.1 hi hr0 hnew
+    · rw [harr3]
+      exact hG.2.set (fun z hz => by cases hz; show nElems es = nElems (reported es); rw [nElems_reported])
+    · intro hA
+      show InvA c s3.blocks s3.arrs
+      rw [h3.blocks, harr3]
+      exact InvA.replace hA hG.1 hi hr0 hnew (eqv_refl c _)
+    · rw [allocOf_set_self harr3 hlti, allocOf_eq hx]
+
+theorem reextent_spec (c : Cfg) (hok : c.OK) (i : Nat) (es : List Ext) (s : St) (hG : Good c s)
+    (happ : (Op.reextent i es).applicable c s = true) (hfx : (Op.reextent i es).fixedIn c = true) :
+    OpSpec c (.reextent i es) s := by
+  unfold OpSpec
+  show Out (opReextent c i es false s) _ _ _
+  apply Out.mono (opReextent_spec (T := s.fuel ≠ none ∧ (Op.reextent i es).isSaMove = true) c hok i es false s hG happ hfx) _
+    (fun _ h => h) id
+  intro _ s' ⟨h1, h2, h3, h4, h5⟩
+  exact ⟨h1, h2, h3, fun _ => h4, h5⟩
+
+theorem reextentFill_spec (c : Cfg) (hok : c.OK) (i : Nat) (es : List Ext) (s : St) (hG : Good c s)
+    (happ : (Op.reextentFill i es).applicable c s = true) (hfx : (Op.reextentFill i es).fixedIn c = true) :
+    OpSpec c (.reextentFill i es) s := by
+  unfold OpSpec
+  show Out (opReextent c i es true s) _ _ _
+  apply Out.mono (opReextent_spec (T := s.fuel ≠ none ∧ (Op.reextentFill i es).isSaMove = true) c hok i es true s hG happ hfx) _
+    (fun _ h => h) id
+  intro _ s' ⟨h1, h2, h3, h4, h5⟩
+  exact ⟨h1, h2, h3, fun _ => h4, h5⟩
+
 end Ledger
 end Multi
